@@ -24,6 +24,9 @@ func (c *CountDB) Get(key []byte) ([]byte, error) {
 
 func (c *CountDB) take() int64 { return atomic.SwapInt64(&c.NodeGets, 0) }
 
+// Take returns the node reads since the last call and resets the counter.
+func (c *CountDB) Take() int64 { return c.take() }
+
 // SweepCost: C11 - height/size equal the specification's, the AVL bound holds numerically, and with
 // nothing cached a lookup reads at most 2h+2 nodes, a proof at most 10h+10 (h from the spec tree).
 func (e *Executor) SweepCost(i int, op string) *Violation {
